@@ -143,6 +143,14 @@ CHECKS["C07"] = dict(
     note="Trusted: vsched semantics; rig R4 (ordered reliable message pipe named 'webtransport') replaces the nhooyr WebSocket / QUIC byte transports, which cannot be put under the scheduler; the real polling->websocket upgrade end to end over loopback is exercised by C01's matrix (transport 'upgrade') without schedule control. Scope: 2 (quick) / 3 (thorough) messages each way, bound 2/3.",
     design="3/C07")
 
+CHECKS["C16"] = dict(
+    engine="vsched",
+    category="model_checking",
+    technique="stateless model checking of two-thread API programs under a controlled scheduler in a -race build: the race detector judges every explored schedule under its true happens-before relation; deadlock and held-mutex detection by the scheduler",
+    text="Every unordered pair (including an operation with itself) of operations from a 26-operation server alphabet (Emit with/without ack/binary, Join, Leave, Rooms, namespace and room broadcasts, On/Off handlers, Use, Disconnect(false/true), SocketsJoin, DisconnectSockets, FetchSockets, Server.Close, incoming events/acks/binary events/DISCONNECT/transport close, another client's CONNECT), a 15-operation Go-client alphabet and an 8-operation adapter alphabet (in-memory and session-aware) runs as a two-thread program; every server operation is also issued from inside an event handler, a disconnecting handler and an ack callback against concurrent operations (797 programs). All schedules to the deviation bound are executed in a -race build in which the scheduler's own hand-offs are hidden from TSan and every modelled primitive publishes exactly its Go-memory-model edge, so a report is a race under the explored schedule's real happens-before relation; verdicts: TSan report whose racing access lies in repository code, a thread blocked for ever on a lock/WaitGroup (incl. lock cycles and locks held by exited threads), a mutex held by an exited thread at quiescence, an uncaught panic.",
+    note="Trusted: the TSan integration (self-tested by harness/racetest at set-up: locked pair silent, unlocked pair reported); channel operations publish a slightly stronger edge than Go guarantees (can hide, never invent a race); memory-order effects beyond happens-before are not produced. Scope: 2 threads x 1 operation, bound 1 (quick) / 2 (thorough); the quantifier's random 2..16-goroutine programs and GOMAXPROCS variation are replaced by exhaustive small-scope enumeration.",
+    design="3/C16")
+
 NOT_APPLICABLE = {
 }
 
